@@ -20,6 +20,10 @@ PROPS["C19"] = dict(
 )
 
 MIN = MINCACHE
+def _w(run, weight):
+    run.weight = weight
+    return run
+
 def _omp_run(pid, kinds, tier, mincache=False):
     """OpenMP-build run of a sequential property: the C16 scenarios of the given kinds under the ICB scheduler + mini-GOMP
     (result equals the reference model for every explored schedule, happens-before race detection)."""
@@ -36,8 +40,8 @@ def _c01_runs(tier):
     rs.append(Run(C(), "harness/p_c01.c", ["--mode=djb"], group="host-djb"))
     rs.append(Run(C(sse2=0, **MIN), "harness/p_c01.c", ["--mode=djb"], group="min-djb"))
     for mode in ("grid", "split", "big"):
-        rs.append(Run(C(), "harness/p_c01.c", ["--mode=" + mode], group="host-" + mode))
-        rs.append(Run(C(sse2=0, **MIN), "harness/p_c01.c", ["--mode=" + mode], group="min-" + mode))
+        rs.append(_w(Run(C(), "harness/p_c01.c", ["--mode=" + mode], group="host-" + mode), 8 if (mode == "grid" and tier == "thorough") else 1))
+        rs.append(_w(Run(C(sse2=0, **MIN), "harness/p_c01.c", ["--mode=" + mode], group="min-" + mode), 8 if (mode == "grid" and tier == "thorough") else 1))
     rs.append(_omp_run("C01", 0x2f, tier))
     return rs
 
